@@ -3,8 +3,10 @@ from harness import casgen, common, refio, sessions
 from harness.common import bud
 
 PROP = "C02"
-MODULES = ["CassisModel.Properties.C02", "CassisModel.Properties.C02Closure", "CassisModel.Properties.C02RoundTrip", "CassisModel.Properties.C02RoundTripColl", "CassisModel.Properties.C02AppliesColl"]
+MODULES = ["CassisModel.Properties.C02", "CassisModel.Properties.C02Closure", "CassisModel.Properties.C02RoundTrip", "CassisModel.Properties.C02RoundTripColl", "CassisModel.Properties.C02AppliesColl", "CassisModel.Properties.C02EmbeddedTs"]
 THEOREMS = [
+    "Cassis.Json.json_full_ts_same",
+    "Cassis.Json.json_full_ts_same_needs_writable",
     "Cassis.Json.parseFloatValue_special",
     "Cassis.Json.floatElem_roundtrip",
     "Cassis.Json.parsePrimArray_absent",
